@@ -17,6 +17,8 @@
 (*   punctuation "sl" / "col" : "dot" . "eq" = "com" , "dq" double quote   *)
 (*             "sq" single quote "bs" backslash "lf" newline "sp" space    *)
 (*             "mi" - "lb" [ "rb" ] "at" @ "ot" (any other character)      *)
+(*             "pz" the percent-encoded zone delimiter %25 of an IPv6      *)
+(*             literal with a zone ID (RFC 6874; documented host form)     *)
 (*                                                                         *)
 (* PrintU(V,p,fmt), ParseInst(V,text), ParseClass(V,text) are transcribed   *)
 (* from CIMInstanceName/CIMClassName.to_wbem_uri / from_wbem_uri, the      *)
@@ -54,6 +56,7 @@ WordSyms == Letters \cup DigitToks \cup WordToks          \* \w
 (* V.hosthyphen = "reject": the authority pattern has no '-'               *)
 HostSyms(V) == WordSyms \cup {"dot", "col", "at", "lb", "rb"}
                \cup (IF V.hosthyphen = "ok" THEN {"mi"} ELSE {})
+               \cup (IF V.hostzone = "ok" THEN {"pz"} ELSE {})
 SchemeSyms == WordSyms \cup {"mi"}                        \* [\w\-]
 Lower(c) == CASE c = "A" -> "a" [] c = "B" -> "b" [] c = "H" -> "h"
               [] OTHER -> c
@@ -76,10 +79,27 @@ VFixed == [realprint |-> "float",   \* "repr": Real32/Real64 print debug repr
            hosthyphen |-> "ok",     \* "reject": '-' is not in the authority
                                     \*   pattern: host 'my-host' is printed
                                     \*   but not accepted
+           hostzone |-> "ok",       \* "reject": '%' is not in the authority
+                                    \*   pattern: host '[fe80::1%25eth0]' (a
+                                    \*   documented host form) is printed
+                                    \*   but not accepted
            dtpre |-> "none",        \* "full": a double quoted value is only
                                     \*   tried as a datetime if it passes an
                                     \*   all-digits pre-check; reduced
                                     \*   precision datetimes stay strings
+           charq |-> "dq",          \* "sqnoesc": char16-typed key values are
+                                    \*   printed single quoted (charValue)
+                                    \*   with the escaping of the string
+                                    \*   branch (backslash, double quote):
+                                    \*   the apostrophe itself prints '\'\'\'
+           pcache |-> "none",       \* "setters": to_wbem_uri('canonical')
+                                    \*   caches its text in the object; the
+                                    \*   cache is cleared by the attribute
+                                    \*   setters and path[k]=.. / del path[k]
+                                    \*   only (not by changes made through
+                                    \*   the keybindings dictionary or to a
+                                    \*   referenced path object); see
+                                    \*   WbemUriHeap (histories)
            cache |-> "none"]        \* "refs": reference key values parsed
                                     \*   through a cache keyed by their text
                                     \*   (equal text -> ONE shared object);
@@ -102,6 +122,9 @@ VHostLit == [VFixed EXCEPT !.hostcase = "dnsonly"]
 VExpSign == [VFixed EXCEPT !.expsign = "minus"]
 VDtPre == [VFixed EXCEPT !.dtpre = "full"]
 VHostHyphen == [VFixed EXCEPT !.hosthyphen = "reject"]
+VChar16Sq == [VFixed EXCEPT !.charq = "sqnoesc"]
+VPrintCache == [VFixed EXCEPT !.pcache = "setters"]
+VHostZone == [VFixed EXCEPT !.hostzone = "reject"]
 VCacheRefs == [VFixed EXCEPT !.cache = "refs"]
 VCacheAll == [VFixed EXCEPT !.cache = "all"]
 (* variant chosen by environment (the harness probes the tree)             *)
@@ -116,6 +139,9 @@ VEnv == [VFixed EXCEPT
            !.expsign = IF Env("C07_EXPMINUS") THEN "minus" ELSE @,
            !.dtpre = IF Env("C07_DTFULLONLY") THEN "full" ELSE @,
            !.hosthyphen = IF Env("C07_HOSTNOHYPHEN") THEN "reject" ELSE @,
+           !.hostzone = IF Env("C07_HOSTNOZONE") THEN "reject" ELSE @,
+           !.charq = IF Env("C07_CHAR16SQ") THEN "sqnoesc" ELSE @,
+           !.pcache = IF Env("C07_PCACHE") THEN "setters" ELSE @,
            !.cache = IF Env("C07_CACHEALL") THEN "all"
                      ELSE IF Env("C07_CACHEREFS") THEN "refs" ELSE @]
 
@@ -187,8 +213,10 @@ Header(V, p, fmt) ==
 RECURSIVE PrintU(_, _, _)
 PrintVal(V, v, fmt) ==
   CASE v.t \in {"string", "char16"} ->
-         <<"dq">> \o Esc(IF V.canonval = "lowered" /\ fmt = "canonical"
-                         THEN LowerSeq(v.s) ELSE v.s) \o <<"dq">>
+         IF v.t = "char16" /\ V.charq = "sqnoesc"
+         THEN <<"sq">> \o Esc(v.s) \o <<"sq">>
+         ELSE <<"dq">> \o Esc(IF V.canonval = "lowered" /\ fmt = "canonical"
+                              THEN LowerSeq(v.s) ELSE v.s) \o <<"dq">>
     [] v.t \in {"boolean", "int"} -> v.s
     [] v.t = "real" -> IF V.realprint = "repr" /\ v.w # "py"
                        THEN ReprJunk(v.s) ELSE v.s
